@@ -554,6 +554,28 @@ func HRawInst(tmpl, rawKind, methodIdx, prefixIdx int) {
 		zz.Observe("route", route.Name())
 		zz.Observe("args", route.Args())
 	}
+	if prefix != "" {
+		// the same request with the PREFIX spelled with a needless escape ("/%61pi" for "/api"): paths that differ
+		// only in needless escaping of unreserved characters reach the same operation with the same arguments (C12's
+		// consequence for routing, with a configured prefix)
+		u2 := &url.URL{Path: u.Path, RawPath: "/%61pi" + zzInstantiate(t, raw)}
+		seen2 := &zzSeen{}
+		s2 := zzNewServer(prefix, seen2)
+		route2, found2 := s2.FindPath(method, u2)
+		rec2 := &zzRecorder{header: http.Header{}}
+		s2.ServeHTTP(rec2, &http.Request{Method: method, URL: u2, Header: http.Header{}})
+		zz.Cover("raw-instance-escaped-prefix")
+		zz.Assert(found2 == found && seen2.calls == seen.calls && rec2.status == rec.status, "a needlessly escaped path prefix does not change whether the request is routed and served")
+		if found && found2 {
+			same := route2.Name() == route.Name() && len(route2.Args()) == len(route.Args())
+			if same {
+				for i := range route.Args() {
+					same = zz.And(same, zz.EqString(route2.Args()[i], route.Args()[i]))
+				}
+			}
+			zz.Assert(same, "a needlessly escaped path prefix does not change the operation or its arguments")
+		}
+	}
 	// the router works on the (normalised) escaped text: an argument whose first byte is static text of a
 	// diverging sibling template is inside the recorded static-sibling finding here as well
 	zz.Known("C05/static-sibling-shadows-parameter", zz.Or(zzSiblingStatic(method, zzInstantiate(t, dec)), zzSiblingStatic(method, zzInstantiate(t, raw))))
